@@ -321,20 +321,25 @@ def anchored_dollar_patches(run, R5, fi):
   """obligations for every `rec.` patch of `fi` bounded by a regex match (shared with C19-R8)"""
   # patches whose bounds come from a match object:  make_patch(text, m.start(..), m.end(..), 'rec.')
   sites = []
-  for c in calls_in(fi.node):
-    if not (dotted(c.func) or "").endswith("make_patch") or len(c.args) < 3:
+  called = {(dotted(c.func) or "").split(".")[-1] for c in calls_in(fi.node)}
+  scopes = [fi] + [g for g in fi.module.functions.values() if g is not fi and g.name in called]
+  for g, c in [(g, c) for g in scopes for c in calls_in(g.node)]:
+    if not (dotted(c.func) or "").endswith("make_patch"):
       continue
-    ms = {text(a.func.value) for a in c.args[1:3]
+    bounds = list(c.args[1:3]) + [k.value for k in c.keywords if k.arg in ("start", "end")]
+    if len(bounds) < 2:
+      continue
+    ms = {text(a.func.value) for a in bounds
           if isinstance(a, ast.Call) and isinstance(a.func, ast.Attribute) and
           a.func.attr in ("start", "end", "span") and isinstance(a.func.value, ast.Name)}
     if len(ms) == 1:
-      sites.append((c, ms.pop()))
+      sites.append((g, c, ms.pop()))
   need(sites, "a patch whose bounds are taken from a regular-expression match", fi)
   n = 0
-  for c, m in sites:
-    defs = [s.value for s in ast.walk(fi.node) if isinstance(s, ast.Assign) and
+  for g, c, m in sites:
+    defs = [s.value for s in ast.walk(g.node) if isinstance(s, ast.Assign) and
             any(isinstance(t, ast.Name) and t.id == m for t in s.targets)]
-    defs += [s.value for s in ast.walk(fi.node) if isinstance(s, ast.NamedExpr) and s.target.id == m]
+    defs += [s.value for s in ast.walk(g.node) if isinstance(s, ast.NamedExpr) and s.target.id == m]
     calls = [d for d in defs if isinstance(d, ast.Call) and isinstance(d.func, ast.Attribute)]
     if not calls or len(calls) != len(defs):
       need(None, "the call that produces the match object `%s`" % m, fi)
